@@ -11,9 +11,83 @@ static ref::Sup tg_sup(const Cell& c, int k) { return ref::sup(c, ref::unit(c.n,
 static ref::Sup tg_inf(const Cell& c, int k) { return ref::inf(c, ref::unit(c.n, k), Q(0)); }
 static bool tg_marked_empty_box() { return CUR_SIG.size() >= 2 && CUR_SIG[0] == 'U' && CUR_SIG[1] == 'E'; }
 
+// ---- bound types with rounding / a finite range
+static Q tg_type_max(bool& has) {
+  has = true;
+  if (BT<BTy>::is_float) return q_of(std::numeric_limits<BTy>::max());
+  if (BT<BTy>::bits > 0) return pow2(BT<BTy>::bits - 1) - 2;
+  has = false; return Q(0);
+}
+static bool tg_exceeds(const Q& v) { bool has; Q m = tg_type_max(has); return has && abs(v) > m; }
+static bool tg_representable(const Q& v) {
+  if (EXACT_T) return true;
+  if (!BT<BTy>::is_float) return v.get_den() == 1 && !tg_exceeds(v);
+  if (v == 0) return true;
+  mpz_class den = v.get_den(), m = abs(v.get_num());
+  long e = 0;
+  if (mpz_popcount(den.get_mpz_t()) != 1) return false;
+  e -= (long)mpz_sizeinbase(den.get_mpz_t(), 2) - 1;
+  while (mpz_even_p(m.get_mpz_t())) { m >>= 1; ++e; }
+  long bits = (long)mpz_sizeinbase(m.get_mpz_t(), 2);
+  const long p = std::numeric_limits<BTy>::digits, emax = std::numeric_limits<BTy>::max_exponent, emin = std::numeric_limits<BTy>::min_exponent;
+  return bits <= p && e >= emin - p && e + bits <= emax;
+}
+// does the result cut the piece in a template direction whose exact bound had to be rounded / is out of range?
+static std::string tg_lost_direction(const Cell& piece, const Cell& after) {
+  if (EXACT_T || piece.bot) return "none";
+  std::vector<Vec> dirs = directions(piece.n, KIND);
+  bool unrep = false, exc = false;
+  for (size_t i = 0; i < dirs.size(); ++i) {
+    ref::Sup se = ref::sup(piece, dirs[i], Q(0));
+    if (se.status != 1) continue;
+    bool violated = after.bot;
+    if (!violated) { ref::Sup sa = ref::sup(after, dirs[i], Q(0)); violated = sa.status == 1 && (sa.value < se.value || (sa.value == se.value && se.attained && !sa.attained)); }
+    if (!violated) continue;
+    Q v = se.value;
+    int nzd = 0; for (size_t k = 0; k < dirs[i].size(); ++k) if (dirs[i][k] != 0) ++nzd;
+    if (KIND == K_OCT && nzd == 1) v *= 2;          // unary octagonal bounds are stored doubled
+    if (tg_exceeds(v)) exc = true; else if (!tg_representable(v)) unrep = true;
+  }
+  if (exc) return "lost_bound_exceeds_range_of_bound_type";
+  if (unrep) return "lost_bound_not_representable_in_bound_type";
+  return "none";
+}
+static bool tg_some_piece_bound_exceeds() {
+  for (size_t k = 0; k < CUR_PIECES.size(); ++k) {
+    const Cell& c = CL[CUR_PIECES[k]]; if (c.bot) continue;
+    std::vector<Vec> dirs = directions(c.n, KIND);
+    for (size_t i = 0; i < dirs.size(); ++i) { ref::Sup se = ref::sup(c, dirs[i], Q(0)); if (se.status == 1 && (tg_exceeds(se.value) || (KIND == K_OCT && tg_exceeds(2 * se.value)))) return true; }
+  }
+  return false;
+}
+
 static std::string auto_trigger(const std::string& cl) {
+  if (!EXACT_T) {
+    // overflow inside add_mul_assign_r / sub_mul_assign_r / neg_assign_r(ROUND_DOWN) stores NaN or -infinity into the matrix
+    if (LAST_BAD && (cl == "invariant:matrix-entry-nan-or-minus-infinity" || cl == "invariant:OK()" || cl == "enclosure:result-loses-points")) return "result_has_nan_or_minus_infinity_entry";
+    if (cl == "enclosure:result-loses-points" && CUR_LOST >= 0 && CUR_AFTER >= 0) { std::string t = tg_lost_direction(CL[CUR_LOST], CL[CUR_AFTER]); if (t != "none") return t; }
+  }
+  if (!EXACT_T && !LAST_BAD && cl == "invariant:OK()" && KIND == K_BOX && BT<BTy>::is_float && tg_some_piece_bound_exceeds()) return "exact_bound_exceeds_range_of_bound_type";
   if (CUR_CLS < 0) return "none";
   const Cell& P = CL[CUR_CLS];
+  if (!EXACT_T && KIND == K_BDS && CUR_OP && !LAST_BAD && tg_has(CUR_SIG, 'R') && (cl == "value:constraints!=gamma" || cl == "value:minimized_constraints!=gamma" || cl == "invariant:OK()")) {
+    const OpArgs& oa = CUR_OP->args;
+    bool shift_overflows = oa.d != 0 && tg_exceeds(oa.e.q0() / Q(oa.d));
+    if (shift_overflows || tg_some_piece_bound_exceeds()) return "reduced_shape_bound_overflowed_to_infinity";
+  }   // translation keeps +SPR; constraints() then converts a +inf entry still flagged non-redundant
+  if (!EXACT_T && KIND != K_BOX && CUR_Q && CUR_Q->args.fam == "maxmin" && cl == "query:definite-answer-false" && !P.bot) {
+    // max_min: d = b + coeff * dbm entry overflows to +infinity and is passed to numer_denom() unchecked
+    const QArgs& a = CUR_Q->args;
+    ref::Sup s = a.maxi ? ref::sup(P, a.e.vec(P.n), a.e.q0()) : ref::inf(P, a.e.vec(P.n), a.e.q0());
+    if (s.status == 1 && (tg_exceeds(s.value) || (BT<BTy>::is_float && !tg_representable(s.value) && tg_exceeds(s.value * Q(1000001, 1000000))))) return "optimum_exceeds_range_of_bound_type";
+    if (tg_exceeds(a.e.q0())) return "optimum_exceeds_range_of_bound_type";
+  }
+  if (!EXACT_T && KIND != K_BOX && CUR_Q && CUR_Q->args.fam == "relcong" && CUR_Q->args.m != 0 && !P.bot) {
+    // relation_with(Congruence) is computed from minimize()/maximize() of the expression: same overflow
+    const QArgs& a = CUR_Q->args;
+    ref::Sup hi = ref::sup(P, a.e.vec(P.n), a.e.q0()), lo = ref::inf(P, a.e.vec(P.n), a.e.q0());
+    if ((hi.status == 1 && tg_exceeds(hi.value)) || (lo.status == 1 && tg_exceeds(lo.value))) return "optimum_exceeds_range_of_bound_type";
+  }
   const Cell* O = CUR_OCLS >= 0 ? &CL[CUR_OCLS] : 0;
   if (CUR_OP) {
     const Op& op = *CUR_OP; const OpArgs& a = op.args; const std::string& nm = op.name;
@@ -52,8 +126,9 @@ static std::string auto_trigger(const std::string& cl) {
     if (KIND == K_BOX) {
       if (a.fam == "bounded" && !a.pre && a.d < 0 && a.e.mentions(a.v) && a.e2.mentions(a.v) && (cl == "enclosure:result-loses-points" || cl == "invariant:OK()" || tg_starts(cl, "best:result-loses")))
         return "negative_denominator_var_in_both_bounds";
-      if (a.fam == "bounded" && a.pre && cl == "crash:SIGFPE" && !P.bot) {
-        bool lo = tg_inf(P, a.v).status == 1, hi = tg_sup(P, a.v).status == 1;
+      if (a.fam == "bounded" && a.pre && cl == "crash:SIGFPE" && !tg_marked_empty_box()) {
+        // (a box that is empty but not marked still has its interval bounds: they are invisible in the value class)
+        bool lo = P.bot || tg_inf(P, a.v).status == 1, hi = P.bot || tg_sup(P, a.v).status == 1;
         if ((lo && !a.e2.mentions(a.v)) || (hi && !a.e.mentions(a.v))) return "bound_expr_without_var_and_var_bounded";
       }
       if (a.fam == "genlhs" && a.pre && (cl == "enclosure:result-loses-points" || cl == "invariant:OK()")) return "lhs_form_preimage";
@@ -93,13 +168,35 @@ static std::string auto_trigger(const std::string& cl) {
         }
       } else {
         // the single candidate hyperplane is computed from floor(lower bound): wrong unless the infimum is attained and is itself a solution
+        // (the trigger recomputes that candidate exactly as the code does and compares it with the true smallest solution)
         ZE h = a.e; h.b = 0;
-        ref::Sup lo = ref::inf(P, h.vec(P.n), Q(0));
-        if (lo.status == 1) {
+        ref::Sup lo = ref::inf(P, h.vec(P.n), Q(0)), hi = ref::sup(P, h.vec(P.n), Q(0));
+        if (lo.status == 1 && hi.status == 1) {
+          mpz_class mod(a.m), v = a.e.b % mod, lower;
+          mpz_fdiv_q(lower.get_mpz_t(), lo.value.get_num().get_mpz_t(), lo.value.get_den().get_mpz_t());
+          v -= (lower / mod) * mod;
+          if (v + lower > 0) v -= mod;
+          Q cand = Q(-v);
+          // true smallest value s >= inf (or > inf) with s + b = 0 (mod m)
           Q t = (lo.value + a.e.q0()) / a.m;
-          if (!(lo.attained && t.get_den() == 1)) return "infimum_not_an_attained_solution";
+          mpz_class k; mpz_cdiv_q(k.get_mpz_t(), t.get_num().get_mpz_t(), t.get_den().get_mpz_t());
+          if (Q(k) == t && !lo.attained) k += 1;
+          Q s = Q(k) * a.m - a.e.q0();
+          if (cand != s) return "candidate_hyperplane_is_not_the_smallest_solution_above_infimum";
         }
       }
+    }
+    if (KIND != K_BOX && q.name == "is_disjoint_from" && O && !P.bot && !O->bot) {
+      // is_disjoint_from only compares opposite entries of the two closed matrices; a disjointness that needs a
+      // negative cycle alternating between the two shapes is missed
+      bool pairwise = false;
+      std::vector<Vec> dirs = directions(P.n, KIND);
+      for (size_t i = 0; i < dirs.size() && !pairwise; ++i) {
+        Vec nd(P.n); for (int k = 0; k < P.n; ++k) nd[k] = -dirs[i][k];
+        ref::Sup a1 = ref::sup(P, dirs[i], Q(0)), b1 = ref::sup(*O, nd, Q(0));
+        if (a1.status == 1 && b1.status == 1 && a1.value + b1.value < 0) pairwise = true;
+      }
+      if (!pairwise) return "disjointness_not_witnessed_by_one_pair_of_bounds";
     }
     if (KIND == K_BOX && a.fam == "relcon" && a.c.e.nvars() == 1 && a.c.k != ref::EQ && !P.bot) {
       // interval_relation: an upper-bound constraint on an interval unbounded above answers strictly_intersects without looking at the lower bound
